@@ -22,7 +22,7 @@ PROPS = {
                  "non-trivial = the Recorder trace of the input has at least one line dispatched to a section parser; "
                  "distinct = by FNV-64 of the input bytes, merged over all legs"),
         "assumptions": COMMON_ASSUMPTIONS + [
-            "memory safety is judged by Miri (aliasing/validity), AddressSanitizer (heap/stack red zones) and a "
+            "memory safety is judged by Miri (aliasing/validity), AddressSanitizer (heap/stack red zones), valgrind memcheck on the release binary and a "
             "debug-assertions+overflow-checks build (unsafe preconditions, integer overflow) on the inputs those legs ran; "
             "a clean sanitizer run is not a proof of memory safety",
             "non-termination is judged by a per-worker watchdog followed by a solo re-run of the in-flight case",
@@ -34,6 +34,7 @@ PROPS = {
             leg("dbg", "dbg", 8, 2500, timeout=600, max_secs=150),
             leg("asan", "asan", 8, 1500, timeout=600, max_secs=150, optional=True),
             leg("miri", "miri", 16, 6, timeout=900, max_secs=240, pregen=True),
+            leg("memcheck", "memcheck", 4, 250, timeout=600, max_secs=120, optional=True),
         ],
         "thorough": [
             leg("main", "rel", 16, 250000, timeout=3600, max_secs=800),
@@ -41,6 +42,7 @@ PROPS = {
             leg("dbg", "dbg", 16, 40000, timeout=3600, max_secs=800),
             leg("asan", "asan", 16, 30000, timeout=3600, max_secs=800, optional=True),
             leg("miri", "miri", 16, 150, timeout=3600, max_secs=900, pregen=True),
+            leg("memcheck", "memcheck", 16, 6000, timeout=3600, max_secs=900, optional=True),
         ],
         "min": {"decodes_ok": 1000, "encodes_ok": 500, "objects_slider": 500, "class_noise": 50,
                 "class_bundled-mutant": 50, "enc_utf16le-bom": 50, "enc_utf16be-bom": 50, "enc_invalid-utf8": 20},
@@ -409,9 +411,9 @@ MANIFEST_TEXT = {
         "level_note": "Bounded-exhaustive over the alphabet, sampled beyond; the model is hand-written from the statement.",
     },
     "C01": {
-        "technique": "runtime monitoring: hostile-input stress under panic capture, debug-assertions/overflow-checks build, AddressSanitizer and Miri; process-death + progress-file witness; watchdog for non-termination",
+        "technique": "runtime monitoring: hostile-input stress under panic capture, debug-assertions/overflow-checks build, AddressSanitizer, valgrind memcheck and Miri; process-death + progress-file witness; watchdog for non-termination",
         "level_text": ("Every generated input (noise, grammar, mutants, transcodings, every prefix of bundled files) is decoded by all nine "
-                       "decoders and re-encoded under five build flavours; a panic, abort, sanitizer report, in-memory Err, non-UTF-8 "
+                       "decoders and re-encoded under six build/tool flavours; a panic, abort, sanitizer report, in-memory Err, non-UTF-8 "
                        "output or non-terminating case refutes the property. Held = no such event on the executions listed in the evidence."),
         "level_note": "Coverage is the generated inputs only; sanitizer legs run smaller samples (Miri: tens to hundreds of small inputs). Trusted: rustc/std, Miri, ASan runtime, the harness.",
     },
